@@ -3,6 +3,7 @@ EXTENDS AsyncReader, Json
 \* payload lengths: 0 = empty (never decodes), one frame above MaxLen, one that does not decode
 FramesA == << [n |-> 2, good |-> TRUE], [n |-> 0, good |-> FALSE], [n |-> 3, good |-> TRUE], [n |-> 1, good |-> TRUE] >>
 FramesB == << [n |-> 1, good |-> TRUE], [n |-> 2, good |-> FALSE], [n |-> 5, good |-> TRUE], [n |-> 1, good |-> TRUE] >>
+Unbounded == -1
 FramesC == << [n |-> 3, good |-> TRUE], [n |-> 3, good |-> TRUE] >>
 \* The implementation runs the internal steps (LenComplete, ValComplete) in the same poll that delivered the last
 \* byte; the expected results of a schedule are therefore those of the state after these steps have settled.
